@@ -14,7 +14,7 @@ func main() {
 	drv := os.Args[1]
 	fs := flag.NewFlagSet(drv, flag.ExitOnError)
 	seed := fs.Int64("seed", 1, "seed")
-	runs := fs.Int("runs", 10, "number of runs")
+	runs := fs.Int("runs", 10, "number of runs (script driver: 0 = all)")
 	from := fs.Int("from", 0, "first run index")
 	steps := fs.Int("steps", 400, "adversary steps per run")
 	heights := fs.Int("heights", 3, "heights to decide (timed drivers)")
@@ -22,6 +22,7 @@ func main() {
 	full := fs.Bool("full", false, "quorum driver: every validator count")
 	lo := fs.Int("lo", 1, "quorum driver: first validator count")
 	hi := fs.Int("hi", 65535, "quorum driver: last validator count")
+	in := fs.String("in", "", "script driver: file with one JSON behaviour per line")
 	out := fs.String("out", "/dev/stdout", "ndjson trace file")
 	_ = fs.Parse(os.Args[2:])
 	w := NewTraceWriter(*out)
@@ -51,6 +52,8 @@ func main() {
 		runTimer(w, *seed, *from, *runs, *steps)
 	case "payload":
 		runPayload(w, *seed, *full)
+	case "script":
+		runScript(w, *in, *from, *runs)
 	case "quorum":
 		runQuorum(w, *full, *lo, *hi)
 	case "open":
